@@ -27,6 +27,7 @@ from dsl_compiler.src.emission.emitter import BlueprintEmitter  # noqa: E402
 from dsl_compiler.src.ir import nodes as N  # noqa: E402
 from dsl_compiler.src.layout.planner import LayoutPlanner  # noqa: E402
 from dsl_compiler.src.layout.connection_planner import ConnectionPlanner  # noqa: E402
+from dsl_compiler.src.layout import integer_layout_solver as _ils  # noqa: E402
 from dsl_compiler.src.lowering.lowerer import ASTLowerer  # noqa: E402
 from dsl_compiler.src.parsing.parser import DSLParser  # noqa: E402
 
@@ -164,6 +165,40 @@ def ir_json(ops):
     return out
 
 
+def geometry_table(bp):
+    """Per entity of the emitted Blueprint object (same order as the printed entities): collision box relative to
+    the centre, wire reach, pole data and whether the prototype consumes electricity -- all read from the
+    draftsman / game data the compiler itself uses; lengths are exact integers in 1/1000 tile."""
+    from fractions import Fraction
+
+    from draftsman.data import entities as ent_data
+
+    def q(v):
+        fr = Fraction(str(float(v))).limit_denominator(100000) * 1000
+        return int(fr) if fr.denominator == 1 else float(fr)
+
+    out = []
+    for e in bp.entities:
+        raw = ent_data.raw.get(e.name, {})
+        d = {"name": e.name, "type": raw.get("type")}
+        try:
+            box = e.get_world_bounding_box()
+            pos = e.global_position
+            d["box"] = [q(box.top_left[0] - pos.x), q(box.top_left[1] - pos.y), q(box.bot_right[0] - pos.x), q(box.bot_right[1] - pos.y)]
+        except Exception as ex:  # noqa: BLE001
+            d["box_error"] = str(ex)[:80]
+        d["tile_w"], d["tile_h"] = int(getattr(e, "tile_width", 1)), int(getattr(e, "tile_height", 1))
+        reach = getattr(e, "circuit_wire_max_distance", None)
+        d["circuit_reach"] = q(reach) if reach else 0
+        if raw.get("type") == "electric-pole":
+            d["pole"] = {"copper_reach": q(raw.get("maximum_wire_distance", 0)), "supply": q(raw.get("supply_area_distance", 0))}
+        es = raw.get("energy_source") or {}
+        d["electric"] = es.get("type") == "electric"
+        d["dual"] = bool(getattr(e, "dual_circuit_connectable", False))
+        out.append(d)
+    return out
+
+
 WILD = ("signal-each", "signal-anything", "signal-everything")
 
 
@@ -225,7 +260,25 @@ class Capture:
 
 
 @contextlib.contextmanager
-def capturing(cap: Capture):
+def capturing(cap: Capture, forced_layout: str | None = None):
+    o_solve = _ils.IntegerLayoutEngine._solve_with_strategy
+    calls = {"n": 0}
+
+    def solve(self, strategy, time_limit, early_stop=True):
+        """forced solver outcomes: the stage must produce a pasteable blueprint whatever the solver answers"""
+        calls["n"] += 1
+        fail = _ils.OptimizationResult(positions={}, violations=10 ** 6, total_wire_length=0, success=False,
+                                       strategy_used=str(strategy.get("name")), solve_time=0.0)
+        if forced_layout == "fallback":
+            return fail
+        if forced_layout == "first_fail" and calls["n"] <= 2:
+            return fail
+        if forced_layout == "zero_budget":
+            return o_solve(self, strategy, 0.05, early_stop)
+        return o_solve(self, strategy, time_limit, early_stop)
+
+    if forced_layout:
+        _ils.IntegerLayoutEngine._solve_with_strategy = solve
     o_lower = ASTLowerer.lower_program
     o_plan = LayoutPlanner.plan_layout
     o_emit = BlueprintEmitter.emit_from_plan
@@ -276,6 +329,7 @@ def capturing(cap: Capture):
         BlueprintEmitter.emit_from_plan = o_emit
         DSLParser.parse = o_parse
         ConnectionPlanner.plan_connections = o_conn
+        _ils.IntegerLayoutEngine._solve_with_strategy = o_solve
 
 
 ERR_CLASSES = [
@@ -307,15 +361,17 @@ def classify_error(msg: str) -> str:
 
 def compile_capture(source: str, optimize: bool = True, power_poles: str | None = None,
                     name: str | None = None, source_name: str = "<string>", config=None,
-                    max_layout_retries: int = 3, want_plan: bool = True) -> dict:
+                    max_layout_retries: int = 3, want_plan: bool = True, forced_layout: str | None = None,
+                    want_geometry: bool = False) -> dict:
     """One call of the real compile_dsl_source with artefact capture."""
     cap = Capture()
-    rec: dict = {"source": source, "options": {"optimize": optimize, "power_poles": power_poles, "name": name}}
+    rec: dict = {"source": source, "options": {"optimize": optimize, "power_poles": power_poles, "name": name,
+                                               "forced_layout": forced_layout}}
     kwargs = {}
     if config is not None:
         kwargs["config"] = config
     try:
-        with capturing(cap):
+        with capturing(cap, forced_layout):
             ok, result, diags = _cli.compile_dsl_source(
                 source, source_name=source_name, program_name=name, optimize=optimize,
                 log_level="error", power_pole_type=power_poles, use_json=True,
@@ -374,6 +430,11 @@ def compile_capture(source: str, optimize: bool = True, power_poles: str | None 
                           cp._edge_color_map.get(key) or cp._edge_wire_colors.get(key)])
         # wires that were planned explicitly before routing (memory modules, feedback) join both ends
         rec["edges"] = edges
+        try:
+            rec["relays"] = [[str(n.entity_id), sorted(n.networks_red), sorted(n.networks_green)]
+                             for n in cp.relay_network.relay_nodes.values()]
+        except Exception as ex:  # noqa: BLE001
+            rec["relays_error"] = str(ex)[:100]
         rec["explicit_wires"] = [list(p) for p in (cap.preserved or [])]
     if cap.blueprint is not None:
         bp = cap.blueprint
@@ -381,6 +442,8 @@ def compile_capture(source: str, optimize: bool = True, power_poles: str | None 
         for e in bp.entities:
             ids.append(str(e.id) if e.id is not None else None)
         rec["entity_ids"] = ids  # index i  <->  entity_number i+1
+        if want_geometry:
+            rec["geometry"] = geometry_table(bp)
     return rec
 
 
